@@ -13,7 +13,8 @@ from pathlib import Path
 from tcv import refmodel, scratch, worlds
 from tcv.core import HarnessError, Result, Violation, digest, jdump
 
-PERSISTED = lambda kind: kind != 'inmemory'  # noqa
+INMEM = ('inmemory', 'inmemory_empty')
+PERSISTED = lambda kind: kind not in INMEM  # noqa
 
 
 # ------------------------------------------------------------------------------------------------ reference
@@ -21,9 +22,10 @@ class StoreModel:
     """What the store and the live objects must look like, and what each operation must do. Pure Python over
     refmodel.Model; never looks at the library."""
 
-    def __init__(self, world_desc, modlast):
+    def __init__(self, world_desc, modlast, parameter_mode=True):
         self.desc = world_desc
         self.modlast = modlast
+        self.parameter_mode = parameter_mode
         self.models = {}
         self.stored = {}  # (local, key) -> gen of the stored result
         self.gens = {}  # (class key, storage key) -> number of runs so far
@@ -36,14 +38,18 @@ class StoreModel:
             self.models[vid] = refmodel.Model(worlds.apply_variant(self.desc, vid), self.modlast)
         return self.models[vid]
 
+    def skey(self, m, fn):
+        """storage key: the parameter/input hash, or - in name mode - the name of the declaring config"""
+        return m.key(fn) if self.parameter_mode else m.config_name(m.tasks[fn].mount[1])
+
     def obj(self, m, fn, slot=None):
         ti = m.tasks[fn]
-        if ti.decl.get('data', 'json') == 'inmemory':
-            return ('mem', ti.local, m.key(fn))
-        return (ti.local, m.key(fn))
+        if ti.decl.get('data', 'json') in INMEM:
+            return ('mem', ti.local, self.skey(m, fn))
+        return (ti.local, self.skey(m, fn))
 
     def lk(self, m, fn):
-        return [m.tasks[fn].local, m.key(fn)]
+        return [m.tasks[fn].local, self.skey(m, fn)]
 
     # operations ------------------------------------------------------------------------------
     def new(self, slot, vid):
@@ -79,7 +85,7 @@ class StoreModel:
             return s['mem'][o]
         # run: inputs are pulled from inside run, in declaration order, depth first
         runs.append(fn)
-        ident = (ti.key, m.key(fn)) if PERSISTED(kind) else ('obj', id(s), o)
+        ident = (ti.key, self.skey(m, fn)) if PERSISTED(kind) else ('obj', id(s), o)
         gen = self.gens.get(ident, 0)
         self.gens[ident] = gen + 1
         fault = self.faults[ti.key].pop(0) if self.faults.get(ti.key) else None
@@ -136,7 +142,7 @@ class StoreModel:
     def has_data(self, slot, fn):
         s = self.slots[slot]
         m = s['model']
-        if m.tasks[fn].decl.get('data', 'json') == 'inmemory':
+        if m.tasks[fn].decl.get('data', 'json') in INMEM:
             return False
         return self.obj(m, fn) in self.stored
 
@@ -167,13 +173,14 @@ def get_world(desc):
 
 
 class Exec:
-    def __init__(self, desc, keep=False, records=False):
+    def __init__(self, desc, keep=False, records=False, parameter_mode=True):
         self.desc = desc
         self.records = records
+        self.parameter_mode = parameter_mode
         self.world = get_world(desc)
         self.world.rt.reset()
         self.data_dir = scratch.fresh('data')
-        self.model = StoreModel(desc, self.world.modname)
+        self.model = StoreModel(desc, self.world.modname, parameter_mode)
         self.slots = {}
         self.steps = []
         self.keep = keep
@@ -204,7 +211,7 @@ class Exec:
             _, slot, vid = op
             exp = self.model.new(slot, vid)
             try:
-                self.slots[slot] = self.world.chain(vid, base_dir=self.data_dir)
+                self.slots[slot] = self.world.chain(vid, base_dir=self.data_dir, parameter_mode=self.parameter_mode)
                 obs['error'] = None
             except Exception as e:  # noqa
                 self.slots.pop(slot, None)
@@ -269,17 +276,21 @@ class Exec:
             obs['forced'] = {}
             exp['has_data'] = {}
             exp['forced'] = {}
-            for fn, t in ch.tasks.items():
-                obs['has_data'][fn] = bool(t.has_data)
-                obs['forced'][fn] = bool(t.is_forced)
-                _ = t.data_path
-                _ = t.run_info
-                _ = t.log
-                exp['has_data'][fn] = self.model.has_data(slot, fn)
-                exp['forced'][fn] = self.model.is_forced(slot, fn)
-            _ = ch.tasks_df
-            _ = fn in ch
-            ch.create_readable_filenames()
+            obs['error'] = None
+            try:
+                for fn, t in ch.tasks.items():
+                    exp['has_data'][fn] = self.model.has_data(slot, fn)
+                    exp['forced'][fn] = self.model.is_forced(slot, fn)
+                    obs['has_data'][fn] = bool(t.has_data)
+                    obs['forced'][fn] = bool(t.is_forced)
+                    _ = t.data_path
+                    _ = t.run_info
+                    _ = t.log
+                _ = ch.tasks_df
+                _ = fn in ch
+                ch.create_readable_filenames()
+            except Exception as e:  # noqa
+                obs['error'] = f'{type(e).__name__}: {e}'
         else:
             raise HarnessError(f'unknown op {op}')
         # the fault plan is an environment answer owned by the model: keep the real one in step with it so that one
@@ -382,10 +393,10 @@ def _shallow(o):
     return out
 
 
-def run_history(desc, hist, judge, keep=False, records=False):
+def run_history(desc, hist, judge, keep=False, records=False, parameter_mode=True):
     """Replay `hist` on a fresh store; call judge(step index, obs, exp, exec) after every step.
     -> (violations, canon of final state, observation vector digest)"""
-    ex = Exec(desc, keep=keep, records=records)
+    ex = Exec(desc, keep=keep, records=records, parameter_mode=parameter_mode)
     out = []
     try:
         for i, op in enumerate(hist):
@@ -454,7 +465,7 @@ def _expand(args):
     for hist in hists:
         for op in alphabet(desc, hist, spec):
             h2 = hist + [op]
-            vs, c, ov = run_history(desc, h2, judge(desc, spec), records=bool(spec.get('records')))
+            vs, c, ov = run_history(desc, h2, judge(desc, spec), records=bool(spec.get('records')), parameter_mode=spec.get('parameter_mode', True))
             out.append((h2, c, ov, [v.to_json() for v in vs]))
     return out
 
